@@ -1,5 +1,6 @@
 import KoordVerif.Model.C02
 import KoordVerif.Model.C02Glue
+import KoordVerif.Model.C02Nodes
 import KoordVerif.Generated.C02
 /-
 Ties for C02: the structural facts `Calc.step` relies on, extracted from the current source.
@@ -43,5 +44,38 @@ theorem tie_min_update_pushes_request : C02.minUpdateCalculatorCalls.take 3 =
 
 /-- `allowLent`: anything but the label value "false" lends. -/
 theorem tie_allow_lent : C02.allowLentRule = "label LabelAllowLentResource != \"false\"" := by decide
+
+/-! node event handlers (`NS.step` of Model/C02Nodes): what each handler compares, subtracts and hands to
+`UpdateClusterTotalResource`; `$0,$1` = the handler's parameters (OnNodeUpdate: $0 old, $1 new). -/
+
+/-- OnNodeAdd hands the node's allocatable as it is. -/
+theorem tie_node_add_hands_allocatable :
+    C02.onNodeAddCalls = ["UpdateClusterTotalResource($0.Status.Allocatable)"] := by decide
+
+/-- OnNodeUpdate: unknown node ⇒ the new allocatable; `Equals(old, new)` ⇒ nothing; else the FULL
+    `quotav1.Subtract(new, old)` (`NS.step rlSub`; a loop over one list's keys would show up as a `range` row —
+    `new_keys_only_delta_counterexample`). -/
+theorem tie_node_update_delta_is_full_subtract :
+    C02.onNodeUpdateCalls =
+      ["UpdateClusterTotalResource($1.Status.Allocatable)",
+       "Equals($0.Status.Allocatable, $1.Status.Allocatable)",
+       "Subtract($1.Status.Allocatable, $0.Status.Allocatable)",
+       "UpdateClusterTotalResource(Subtract($1.Status.Allocatable, $0.Status.Allocatable))"] := by decide
+
+/-- OnNodeDelete: the negated allocatable of the object it is handed, then the name is forgotten. -/
+theorem tie_node_delete_subtracts_and_forgets :
+    C02.onNodeDeleteCalls =
+      ["Subtract(nil, $0.Status.Allocatable)",
+       "UpdateClusterTotalResource(Subtract(nil, $0.Status.Allocatable))",
+       "delete(recv.nodeResourceMap, $0.Name)"] := by decide
+
+/-- `NS.bump`: total := Add(total, delta); the root calculator is told when the difference to what it was told
+    last is not all-zero. -/
+theorem tie_cluster_total_adds_delta : C02.clusterTotalAssign = ["Add(recv.totalResource, $0)"] := by decide
+
+theorem tie_cluster_total_push_guard :
+    C02.clusterTotalPushGuard =
+      ["!IsZero(Subtract(Subtract(recv.totalResource, sysAndDefaultUsed), recv.totalResourceExceptSystemAndDefaultUsed))"] := by
+  decide
 
 end KoordVerif.C02
